@@ -76,7 +76,8 @@ func checkAddr(c AddrCase) (err error) {
 		stage = "RemoteSource accessors"
 		_ = v.String()
 		_ = v.Package().String()
-		_ = v.Package().URL()
+		pkgv := v.Package()
+		_ = pkgv.URL()
 		_ = v.Package().SourceType()
 		if sourceaddrs.ValidSubPath(c.Rel) {
 			stage = "RemotePackage.SourceAddr"
